@@ -321,12 +321,14 @@ pub fn nickname_two_rounds<const N: usize, const B: usize, const M: usize, const
                 pv_check!(s, same::<M>(&got, &exp), "PV: each application of the Nickname enforcement rules = validate, space rule, NFKC, non-empty (two applications)");
                 std::mem::forget(got);
             } else {
-                // compare(x, x) under S-STAB2 is Ok(true) iff two applications of the comparison rules succeed
-                let got = p.compare(input, input);
+                // compare(x, "a") under S-STAB2: two applications of the comparison rules on x, against the (concrete,
+                // constant-folded) result for "a", which is "a"
+                let got = p.compare(input, "a");
                 let e: Result<bool, Error> = match exp {
-                    Ok(_) => Ok(true),
+                    Ok(t) => Ok(t.n == 1 && t.c[0] == 'a'),
                     Err(e) => Err(e),
                 };
+                pv_cover!(s, e == Ok(true) && x.cs[0] != 'a', "COVER: another spelling of a");
                 pv_check!(s, got == e, "PV: each application of the Nickname comparison rules = validate, space rule, lowercase, NFKC (two applications)");
             }
         }
@@ -417,110 +419,207 @@ pub fn compare_nickname<const N: usize, const B: usize, const M: usize, S: Src>(
     }
 }
 
-// ------------------------------------------------------------------------------------------ C08 no drift (Freeform profiles)
-pub fn no_drift_freeform<const N: usize, const B: usize, const M: usize, S: Src>(s: &mut S) {
-    let x = SymStr::<N>::from_alphabet(s, &oracle::SIGMA_PIPE);
-    let mut buf = SBuf::<B>::new();
-    x.fill(&mut buf);
-    let nick = s.bool();
-    pv_note!(s, "{}: enforce(enforce({:?}))", if nick { "Nickname" } else { "OpaqueString" }, buf.as_str());
-    let e1 = if nick { Nickname::new().enforce(buf.as_str()) } else { OpaqueString::new().enforce(buf.as_str()) };
-    if let Ok(ref e) = e1 {
-        let mut ea = ['\0'; M];
-        let k = decode(e, &mut ea);
-        let first = Arr::<M> { c: ea, n: k };
-        pv_cover!(s, e.len() != buf.len, "COVER: enforcement changed the input");
-        let e2 = if nick { Nickname::new().enforce(&**e) } else { OpaqueString::new().enforce(&**e) };
-        let ok = match e2 {
-            Ok(ref f) => {
-                let mut fa = ['\0'; M];
-                let kf = decode(f, &mut fa);
-                (Arr::<M> { c: fa, n: kf }).eq(&first)
-            }
-            Err(_) => true,
-        };
-        pv_check!(s, ok, "PV: enforcing an enforced string never yields a different string (it returns it or an error)");
-        // no universally forbidden code point in the output (derived property in the profile's own class)
-        let mut bad = false;
-        let mut i = 0;
-        while i < M {
-            if i < k {
-                let v = FreeformClass::default().get_value_from_char(ea[i]);
-                if v == DerivedPropertyValue::Disallowed || v == DerivedPropertyValue::Unassigned {
-                    bad = true;
-                }
-            }
-            i += 1;
+/// specification result as a real Result<Cow<str>, Error> (used by the S-ENF stubs)
+pub fn spec_to_res<'a, const M: usize>(r: Option<Spec<M>>) -> Res<'a> {
+    match r {
+        None => {
+            assert!(false, "MODEL: normalizer model capacity");
+            Err(Error::Invalid)
         }
-        pv_check!(s, !bad, "PV: no code point of an enforced string is DISALLOWED or UNASSIGNED in FreeformClass");
-        std::mem::forget(e2);
+        Some(Err(e)) => Err(e),
+        Some(Ok(a)) => {
+            let mut out = String::new();
+            let mut i = 0;
+            while i < M {
+                if i < a.n {
+                    out.push(a.c[i]);
+                }
+                i += 1;
+            }
+            Ok(Cow::Owned(out))
+        }
     }
-    std::mem::forget(e1);
 }
 
-// ------------------------------------------------------------------------------------------ C16 API forms (Freeform profiles)
-pub fn api_forms_freeform<const N: usize, const B: usize, const M: usize, S: Src>(s: &mut S) {
+pub fn arr_of_str<const M: usize>(s: &str) -> Arr<M> {
+    let mut c = ['\0'; M];
+    let n = decode(s, &mut c);
+    assert!(n <= M, "MODEL: string longer than the stub capacity");
+    Arr { c, n }
+}
+
+/// the constant operands of the compare harnesses: "" (rejected: Invalid), "a" (accepted), U+1100 (rejected by
+/// FreeformClass: BadCodepoint) / U+0020 (rejected by IdentifierClass)
+pub const CMP_CONSTS_FREE: [&str; 3] = ["", "a", "\u{1100}"];
+pub const CMP_CONSTS_ID: [&str; 3] = ["", "a", " "];
+
+/// compare() of the Freeform profiles with ONE symbolic operand and one constant operand (K selects the constant,
+/// CONST_FIRST its side): the constant side is folded by the solver, so the formula is one pipeline, not two.
+/// Nickname runs with S-STAB2 (two applications of the comparison rules per side).
+pub fn compare_const_freeform<const N: usize, const B: usize, const M: usize, const NICK: bool, const K: usize, const CONST_FIRST: bool, S: Src>(s: &mut S) {
     let x = SymStr::<N>::from_alphabet(s, &oracle::SIGMA_PIPE);
     let mut buf = SBuf::<B>::new();
     x.fill(&mut buf);
     let input = buf.as_str();
-    let nick = s.bool();
-    let op = s.below(2); // 0 prepare 1 enforce
-    let form = s.below(4); // 0 static  1 String  2 Cow  3 long-lived instance after another call
-    pv_note!(s, "{} op {} form {} on {:?}", if nick { "Nickname" } else { "OpaqueString" }, op, form, input);
-    macro_rules! run {
-        ($inst:expr, $arg:expr) => {{
-            let a: Res = if op == 0 { $inst.prepare($arg) } else { $inst.enforce($arg) };
-            a
-        }};
-    }
-    macro_rules! run_static {
-        ($ty:ty, $arg:expr) => {{
-            let a: Res = if op == 0 { <$ty as PrecisFastInvocation>::prepare($arg) } else { <$ty as PrecisFastInvocation>::enforce($arg) };
-            a
-        }};
-    }
-    let base: Res = if nick { run!(Nickname::new(), input) } else { run!(OpaqueString::new(), input) };
-    let mut ba = ['\0'; M];
-    let kb = match base {
-        Ok(ref b) => decode(b, &mut ba),
-        Err(_) => 0,
+    let k = CMP_CONSTS_FREE[K];
+    pv_note!(s, "{}::compare: symbolic {:?}, constant {:?} (constant first: {})", if NICK { "Nickname" } else { "OpaqueString" }, input, k, CONST_FIRST);
+    let got = match (NICK, CONST_FIRST) {
+        (false, false) => OpaqueString::new().compare(input, k),
+        (false, true) => OpaqueString::new().compare(k, input),
+        (true, false) => Nickname::new().compare(input, k),
+        (true, true) => Nickname::new().compare(k, input),
     };
-    let base_spec: Spec<M> = match base {
-        Ok(_) => Ok(Arr { c: ba, n: kb }),
-        Err(ref e) => Err(clone_err(e)),
+    let canon = |a: &Arr<M>| -> Option<Spec<M>> {
+        if NICK {
+            // two applications of the comparison rules (S-STAB2)
+            match nick_round(a, true)? {
+                Err(e) => Some(Err(e)),
+                Ok(t) => nick_round(&t, true),
+            }
+        } else {
+            opaque_enforce_spec(a)
+        }
     };
-    let other: Res = match form {
+    let ka = {
+        let mut c = ['\0'; M];
+        let mut n = 0;
+        for ch in k.chars() {
+            c[n] = ch;
+            n += 1;
+        }
+        Arr::<M> { c, n }
+    };
+    let (ex, ek) = (canon(&Arr::<M>::from_sym(&x)), canon(&ka));
+    if let (Some(ex), Some(ek)) = (ex, ek) {
+        let exp = if CONST_FIRST { cmp_spec(ek, ex) } else { cmp_spec(ex, ek) };
+        pv_cover!(s, exp == Ok(true), "COVER(k1): equal canonical forms");
+        pv_cover!(s, exp == Ok(false), "COVER(k1): accepted, different");
+        pv_cover!(s, matches!(exp, Err(Error::BadCodepoint(_))) && x.n > 0, "COVER: a class error is reported");
+        pv_check!(s, got == exp, "PV: compare(a, b) = (canonical(a)? == canonical(b)?), first operand's error first (Freeform profiles)");
+    } else {
+        pv_check!(s, false, "MODEL: normalizer model capacity");
+    }
+}
+
+// ------------------------------------------------------------------------------------------ C08 no drift (Freeform profiles)
+/// No drift: for every string y of at most N characters, take the canonical form e that the specification assigns to
+/// enforce(y) (C05/C06 decide that the real enforce returns exactly that), run the REAL enforce on e once, and require
+/// Ok(e) or an error; also no code point of e is DISALLOWED/UNASSIGNED in FreeformClass.
+pub fn no_drift_freeform<const N: usize, const B: usize, const M: usize, const NICK: bool, S: Src>(s: &mut S) {
+    let y = SymStr::<N>::from_alphabet(s, &oracle::SIGMA_PIPE);
+    let ya = Arr::<M>::from_sym(&y);
+    let e = if NICK { nick_fixpoint(&ya, false) } else { opaque_enforce_spec(&ya) };
+    match e {
+        None => {
+            pv_check!(s, false, "MODEL: normalizer model capacity");
+        }
+        Some(Err(_)) => {}
+        Some(Ok(e)) => {
+            let mut buf = SBuf::<B>::new();
+            e.fill(&mut buf);
+            pv_note!(s, "{}: enforce of the canonical form {:?}", if NICK { "Nickname" } else { "OpaqueString" }, buf.as_str());
+            pv_cover!(s, !e.eq(&ya), "COVER: a canonical form that differs from its input");
+            let again = if NICK { Nickname::new().enforce(buf.as_str()) } else { OpaqueString::new().enforce(buf.as_str()) };
+            let ok = match again {
+                Ok(ref f) => {
+                    let mut fa = ['\0'; M];
+                    let kf = decode(f, &mut fa);
+                    (Arr::<M> { c: fa, n: kf }).eq(&e)
+                }
+                Err(_) => true,
+            };
+            pv_check!(s, ok, "PV: enforcing an enforced string never yields a different string (it returns it or an error)");
+            let mut bad = false;
+            let mut i = 0;
+            while i < M {
+                if i < e.n {
+                    let v = FreeformClass::default().get_value_from_char(e.c[i]);
+                    if v == DerivedPropertyValue::Disallowed || v == DerivedPropertyValue::Unassigned {
+                        bad = true;
+                    }
+                }
+                i += 1;
+            }
+            pv_check!(s, !bad, "PV: no code point of an enforced string is DISALLOWED or UNASSIGNED in FreeformClass");
+            std::mem::forget(again);
+        }
+    }
+}
+
+// ------------------------------------------------------------------------------------------ C16 API forms (Freeform profiles)
+/// One API form of one operation against the specification (a fresh instance on &str equals the specification by
+/// C05/C06/C07, so every form equals every other).  FORM: 0 static prepare, 1 static enforce, 2 static compare(x, "a"),
+/// 3 enforce(String), 4 enforce(Cow), 5 enforce on an instance that has already served another (symbolic) call.
+/// Nickname runs with S-STAB2, so "enforce" = two applications of the rules.
+pub fn api_form_freeform<const N: usize, const B: usize, const M: usize, const NICK: bool, const FORM: usize, S: Src>(s: &mut S) {
+    let x = SymStr::<N>::from_alphabet(s, &oracle::SIGMA_PIPE);
+    let mut buf = SBuf::<B>::new();
+    x.fill(&mut buf);
+    let input = buf.as_str();
+    pv_note!(s, "{} API form {} on {:?}", if NICK { "Nickname" } else { "OpaqueString" }, FORM, input);
+    let a = Arr::<M>::from_sym(&x);
+    let enf = |a: &Arr<M>, cmp: bool| -> Option<Spec<M>> {
+        if NICK {
+            match nick_round(a, cmp)? {
+                Err(e) => Some(Err(e)),
+                Ok(t) => nick_round(&t, cmp),
+            }
+        } else {
+            opaque_enforce_spec(a)
+        }
+    };
+    if FORM == 2 {
+        let got = if NICK { <Nickname as PrecisFastInvocation>::compare(input, "a") } else { <OpaqueString as PrecisFastInvocation>::compare(input, "a") };
+        let ka = Arr::<M> { c: { let mut c = ['\0'; M]; c[0] = 'a'; c }, n: 1 };
+        if let (Some(ex), Some(ek)) = (enf(&a, true), enf(&ka, true)) {
+            let exp = cmp_spec(ex, ek);
+            pv_cover!(s, exp == Ok(true), "COVER(f2): equal");
+            pv_check!(s, got == exp, "PV: static compare = the specification's compare");
+        } else {
+            pv_check!(s, false, "MODEL: normalizer model capacity");
+        }
+        return;
+    }
+    let exp: Option<Spec<M>> = if FORM == 0 { Some(freeform_prepare(&a)) } else { enf(&a, false) };
+    let got: Res = match FORM {
         0 => {
-            if nick { run_static!(Nickname, input) } else { run_static!(OpaqueString, input) }
+            if NICK { <Nickname as PrecisFastInvocation>::prepare(input) } else { <OpaqueString as PrecisFastInvocation>::prepare(input) }
         }
         1 => {
-            if nick { run!(Nickname::new(), String::from(input)) } else { run!(OpaqueString::new(), String::from(input)) }
+            if NICK { <Nickname as PrecisFastInvocation>::enforce(input) } else { <OpaqueString as PrecisFastInvocation>::enforce(input) }
         }
-        2 => {
-            if nick { run!(Nickname::new(), Cow::Borrowed(input)) } else { run!(OpaqueString::new(), Cow::Borrowed(input)) }
+        3 => {
+            if NICK { Nickname::new().enforce(String::from(input)) } else { OpaqueString::new().enforce(String::from(input)) }
+        }
+        4 => {
+            if NICK { Nickname::new().enforce(Cow::Borrowed(input)) } else { OpaqueString::new().enforce(Cow::Borrowed(input)) }
         }
         _ => {
-            let o = SymStr::<1>::from_alphabet(s, &oracle::SIGMA_PIPE);
-            let mut ob = SBuf::<4>::new();
-            o.fill(&mut ob);
-            if nick {
+            // a long-lived instance after a call on a constant (folded) string
+            if NICK {
                 let inst = Nickname::new();
-                let first = inst.enforce(ob.as_str());
+                let first = inst.enforce("A\u{ff21}");
                 std::mem::forget(first);
-                run!(inst, input)
+                inst.enforce(input)
             } else {
                 let inst = OpaqueString::new();
-                let first = inst.enforce(ob.as_str());
+                let first = inst.enforce("A\u{3000}");
                 std::mem::forget(first);
-                run!(inst, input)
+                inst.enforce(input)
             }
         }
     };
-    pv_cover!(s, x.n == N && form == 0 && matches!(base, Ok(ref e) if e.len() != input.len()), "COVER: a changed result through the static form");
-    pv_check!(s, same::<M>(&other, &base_spec), "PV: static / String / Cow / reused-instance forms give the result of a fresh instance on &str");
-    std::mem::forget(other);
-    std::mem::forget(base);
+    match exp {
+        None => {
+            pv_check!(s, false, "MODEL: normalizer model capacity");
+        }
+        Some(exp) => {
+            pv_cover!(s, x.n == N && matches!(exp, Ok(ref e) if !e.eq(&a)), "COVER(chg): a result that differs from the input");
+            pv_cover!(s, x.n == N && exp.is_ok(), "COVER: accepted");
+            pv_check!(s, same::<M>(&got, &exp), "PV: every API form (static singleton, String, Cow, reused instance) gives the specified result");
+        }
+    }
+    std::mem::forget(got);
 }
 
 // ------------------------------------------------------------------------------------------ rule binding
